@@ -72,6 +72,8 @@ func runC04(c *Ctx) {
 	c.checkCallArgsFresh("range-args-fresh", c.fn("io/partition", "*Parser", "parse"), "AddRange", []int{3, 4, 5}, []string{"start", "end", "modulo"})
 	L.Floor("range-args-fresh", 1, "three numeric arguments (floor = half of the instances on the pinned tree: a clean-up may merge instances, a rule that sees nothing must still fail)")
 	c.checkComplementShape("complement-shape")
+	c.checkStaleState("stale-iteration-state", "cmd", "align")
+	c.L.Floor("stale-iteration-state", 3, "listed state machines of cmd and align plus the scope line")
 }
 
 // splitGuard: in Split, CharAt(pos)/sequence[pos] are safe because
